@@ -682,6 +682,116 @@ func (h *H) predictors() {
 	}
 }
 
+// structuredRows: row sequences that exercise the predictors' bookkeeping between rows and the borrows/carries
+// inside a row: uniform rows, rows equal to / slightly different from the previous row or the row before that
+// (a blank line between two similar lines), ascending and descending values at byte and nibble steps, random rows.
+func structuredRows(r interface {
+	IntN(int) int
+	UintN(uint) uint
+}, rowBytes, rows int) []byte {
+	out := make([]byte, 0, rowBytes*rows)
+	row := func(i int) []byte { return out[i*rowBytes : (i+1)*rowBytes] }
+	pattern := -1
+	if rows >= 3 && r.IntN(2) == 0 {
+		pattern = r.IntN(rows - 2) // rows pattern, pattern+1, pattern+2 are: some row, a uniform row, nearly the first again
+	}
+	for i := 0; i < rows; i++ {
+		cur := make([]byte, rowBytes)
+		kind := r.IntN(7)
+		if pattern >= 0 && i == pattern+1 {
+			kind = 1
+		} else if pattern >= 0 && i == pattern+2 {
+			kind = 6
+		} else if pattern >= 0 && i == pattern && kind == 1 {
+			kind = 0
+		}
+		switch {
+		case kind == 1:
+			v := []byte{0, 0xff, byte(r.UintN(256))}[r.IntN(3)]
+			if i > 0 && rowBytes > 0 && row(i - 1)[0] == v {
+				v ^= 0x5a
+			}
+			for j := range cur {
+				cur[j] = v
+			}
+		case kind == 2 && i > 0:
+			copy(cur, row(i-1))
+		case kind == 3 && i > 0:
+			copy(cur, row(i-1))
+			for k := 0; k < 1+rowBytes/8; k++ {
+				cur[r.IntN(rowBytes)] += byte(1 + r.UintN(3))
+			}
+		case kind == 4 || kind == 5:
+			step := []byte{1, 0x11, 0x10, 0x55, 3, 0x0f}[r.IntN(6)]
+			if kind == 5 {
+				step = -step
+			}
+			v := byte(r.UintN(256))
+			for j := range cur {
+				cur[j] = v
+				v += step
+			}
+		case kind == 6 && i > 1:
+			copy(cur, row(i-2))
+			if rowBytes > 0 && r.IntN(2) == 0 {
+				cur[r.IntN(rowBytes)] ^= 1
+			}
+		default:
+			for j := range cur {
+				cur[j] = byte(r.UintN(256))
+			}
+		}
+		out = append(out, cur...)
+	}
+	return out
+}
+
+// predictorGrid: the library's predictor output for every predictor x BitsPerComponent x Colors x Columns with
+// structured rows, undone by the independent un-predictor (the model of the TIFF 6.0 / PNG definitions).
+func (h *H) predictorGrid() {
+	e := h.e
+	for _, pred := range []int{2, 10, 11, 12, 13, 14, 15} {
+		for _, bpc := range []int{1, 2, 4, 8, 16} {
+			for _, colors := range []int{1, 2, 3, 4, 5, 60, 255} {
+				for _, columns := range []int{1, 2, 3, 8, 17} {
+					if colors > 5 && (columns > 2 || (bpc > 4 && !e.Thorough)) {
+						continue
+					}
+					for k := 0; k < e.Pick(1, 4); k++ {
+						rows := 3 + e.Rand.IntN(3)
+						p := &predict.Params{Colors: colors, BitsPerComponent: bpc, Columns: columns, Predictor: pred}
+						rowBytes := (colors*bpc*columns + 7) / 8
+						data := structuredRows(e.Rand, rowBytes, rows)
+						buf := &bytes.Buffer{}
+						w, err := predict.NewWriter(nopWC{buf}, p)
+						if err != nil {
+							continue
+						}
+						w.Write(data)
+						w.Close()
+						kind := "png"
+						var tags []byte
+						if pred == 2 {
+							kind = "tiff"
+						} else {
+							tags = make([]byte, rows)
+							for j := range tags {
+								tags[j] = byte(pred - 10)
+								if pred == 15 {
+									tags[j] = byte(e.Rand.UintN(5))
+								}
+							}
+						}
+						spec := fmt.Sprintf("%s:%d:%d:%d", kind, colors, bpc, columns)
+						h.modelLines(spec, buf.Bytes(), data, tags, k == 0 && colors <= 5)
+						e.Count(true, "grid"+spec+common.Hex(data), fmt.Sprintf("predictor-grid:%d", pred))
+					}
+				}
+			}
+		}
+	}
+}
+
 // ---------------------------------------------------------------- PNG predictors against image/png
 
 func pngChunk(buf *bytes.Buffer, typ string, data []byte) {
@@ -1274,6 +1384,7 @@ func main() {
 	}
 	h.lzwDegenerate()
 	h.predictors()
+	h.predictorGrid()
 	h.pngInterop()
 	h.ccittCases()
 	h.ccittRunSweep()
